@@ -86,6 +86,9 @@ class Sched:
         self.on_step = None
         self.starve_limit = 400
         self._since_timer = 0
+        self._dispatching = False
+        self.query_yield_p = 0.25
+        self.hot_p = 0.0
         main = Task(0, 'main')
         main.thread = threading.current_thread()
         self.tasks.append(main)
@@ -190,39 +193,13 @@ class Sched:
             if finished:
                 return
             raise SimAbort
-        while True:
-            r = self._runnable()
-            if r:
-                self._since_timer += 1
-                if self._since_timer > self.starve_limit and self._earliest() is not None:
-                    # busy tasks consume time too: a pending timer cannot be starved forever
-                    t = self._fire_timer()
-                    self.log('fire-starved', t.name, round(self.now, 9))
-                    if t.exact:
-                        nxt = t
-                        break
-                    continue
-                if self.timer_p and self.rng.random() < self.timer_p and self._earliest() is not None:
-                    t = self._fire_timer()
-                    self.early_timers += 1
-                    self.log('fire', t.name, round(self.now, 9))
-                    if t.exact:
-                        nxt = t
-                        break
-                    continue
-                nxt = self._pick(r, cur)
-                break
-            t = self._fire_timer()
-            if t is None:
-                self._abort(SimDeadlock('no runnable task and no pending timer: ' + self._table()))
-                if finished:
-                    return
-                raise SimAbort
-            self.log('fire', t.name, round(self.now, 9))
-            if t.exact:
-                # a sleep that returns exactly on time: the sleeper runs at its deadline
-                nxt = t
-                break
+        self._dispatching = True
+        try:
+            nxt = self._choose(cur, finished)
+        finally:
+            self._dispatching = False
+        if nxt is None:
+            return
         self.log('run', nxt.name)
         if nxt is cur:
             return
@@ -233,6 +210,37 @@ class Sched:
             cur.sem.acquire()
             if self.aborting:
                 raise SimAbort
+
+    def _choose(self, cur, finished):
+        while True:
+            r = self._runnable()
+            if r:
+                self._since_timer += 1
+                if self._since_timer > self.starve_limit and self._earliest() is not None:
+                    # busy tasks consume time too: a pending timer cannot be starved forever
+                    t = self._fire_timer()
+                    self.log('fire-starved', t.name, round(self.now, 9))
+                    if t.exact:
+                        return t
+                    continue
+                if self.timer_p and self.rng.random() < self.timer_p and self._earliest() is not None:
+                    t = self._fire_timer()
+                    self.early_timers += 1
+                    self.log('fire', t.name, round(self.now, 9))
+                    if t.exact:
+                        return t
+                    continue
+                return self._pick(r, cur)
+            t = self._fire_timer()
+            if t is None:
+                self._abort(SimDeadlock('no runnable task and no pending timer: ' + self._table()))
+                if finished:
+                    return None
+                raise SimAbort
+            self.log('fire', t.name, round(self.now, 9))
+            if t.exact:
+                # a sleep that returns exactly on time: the sleeper runs at its deadline
+                return t
 
     def _table(self):
         return ', '.join(
@@ -260,6 +268,18 @@ class Sched:
         if self.aborting:
             raise SimAbort
         self._dispatch(cur)
+
+    def query_yield(self):
+        """Scheduling point after a non-blocking query (queue.empty(), event.is_set(), future.done()):
+        lets another task run between the query and whatever the caller does with the answer.  Never
+        yields while the scheduler itself evaluates predicates."""
+        if self._dispatching or self.aborting:
+            return
+        cur = self.cur()
+        if cur is None or cur is not self.current:
+            return
+        if self.rng.random() < self.query_yield_p:
+            self._dispatch(cur)
 
     def maybe_preempt(self):
         if self.preempt_p and self.rng.random() < self.preempt_p:
@@ -381,7 +401,9 @@ class SimEvent:
         self.f = False
 
     def is_set(self):
-        return self.f
+        r = self.f
+        self.s.query_yield()
+        return r
 
     def wait(self, timeout=None):
         return self.s.block_until(lambda: self.f, timeout, what='event')
@@ -395,10 +417,14 @@ class SimQueue:
         self.full_hits = 0
 
     def empty(self):
-        return not self.q
+        r = not self.q
+        self.s.query_yield()      # the answer may be stale by the time the caller acts on it
+        return r
 
     def qsize(self):
-        return len(self.q)
+        r = len(self.q)
+        self.s.query_yield()
+        return r
 
     def put(self, item, block=True, timeout=None):
         ok = self.s.block_until(lambda: not self.maxsize or len(self.q) < self.maxsize,
@@ -428,6 +454,13 @@ class SimQueue:
 
 class SimFuture(concurrent.futures.Future):
     _s = None
+
+    def done(self):
+        r = super().done()
+        s = self._s
+        if s is not None:
+            s.query_yield()
+        return r
 
     def result(self, timeout=None):
         if not self.done():
@@ -497,6 +530,24 @@ def sim_as_completed(s):
                     done.add(id(f))
                     yield f
     return as_completed
+
+
+def sim_wait(s):
+    def wait(fs, timeout=None, return_when='ALL_COMPLETED'):
+        fs = list(fs)
+
+        def ready():
+            d = [f for f in fs if concurrent.futures.Future.done(f)]
+            if return_when == 'FIRST_COMPLETED':
+                return bool(d)
+            if return_when == 'FIRST_EXCEPTION':
+                return len(d) == len(fs) or any(not f.cancelled() and f.exception(0) is not None for f in d)
+            return len(d) == len(fs)
+        s.block_until(ready, timeout, what='futures.wait')
+        done = {f for f in fs if concurrent.futures.Future.done(f)}
+        from concurrent.futures._base import DoneAndNotDoneFutures
+        return DoneAndNotDoneFutures(done, set(fs) - done)
+    return wait
 
 
 class _Sel:
